@@ -7,12 +7,12 @@ RULE = ('same generator as C01 with scripts biased to hooks, guards (including g
         'reference model (guard declines pass outward), and on handled / ignored steps no entry/exit/init action may '
         'run and state_name must not change (a lost search pointer shows up in the next step\'s offer log). In every second case '
         'client code calls is_in / child_state on random states between two events (read-only queries): the next event must still be '
-        'offered to the current state first. '
+        'offered to the current state first. Every fourth case runs on HsmWithQueues (instrumented or not, handlers under spy_on or plain) stepped through dispatch(), and the queries between events then include current_state(). '
         'distinct_nontrivial = distinct (kind, offer-path length, number of declines, depth of current state) tuples '
         'of non-transition steps plus the transition tuples of C01')
 CASES = {'quick': 30000, 'thorough': 600000}
 BUDGET = {'quick': 150, 'thorough': 300}
-REQUIRE = {'handled_steps': 1000, 'ignored_steps': 1000, 'declines': 200, 'hooks_at_depth_3': 5, 'guards_touching_search_pointer': 1000, 'client_queries_between_steps': 20000}
+REQUIRE = {'handled_steps': 1000, 'ignored_steps': 1000, 'declines': 200, 'hooks_at_depth_3': 5, 'guards_touching_search_pointer': 1000, 'client_queries_between_steps': 20000, 'runs_on_a_queued_host': 3000, 'current_state_queries_between_steps': 2000}
 ASSUME = ['generated charts are well-formed', 'offers are observed inside the undecorated handler (one record per invocation with a user signal)']
 
 
@@ -30,7 +30,14 @@ def run_case(ctx, n):
       ctx.count('guards_touching_search_pointer')
   start = rng.randrange(spec['n'])
   script = cg.gen_script(rng, spec, rng.randint(10, 60), p_unknown=0.15)
-  for prop, key, what, wit in seqrun.run_plain(ctx, rng, spec, start, script, query_rng=ctx.rng('queries', n) if n % 2 else None):
+  kw = {}
+  if n % 4 == 3:
+    # a queued host (HsmWithQueues, instrumented or not, handlers under spy_on or plain) stepped through dispatch(); the client
+    # queries between two events then include current_state()
+    from miros.hsm import HsmWithQueues
+    kw = dict(host_cls=HsmWithQueues, spied=rng.random() < 0.6, host_kwargs={'instrumented': rng.random() < 0.5})
+    ctx.count('runs_on_a_queued_host')
+  for prop, key, what, wit in seqrun.run_plain(ctx, rng, spec, start, script, query_rng=ctx.rng('queries', n) if n % 2 else None, **kw):
     if prop == 'C02' or (key.startswith('C0x') and 'C02' == prop):
       ctx.violation(key, what, wit)
     else:
